@@ -28,16 +28,22 @@ Section Chain.
 Variables L N : nat.
 Variables lz relay : bool.
 Variables ft fp c : nat.
+(* cmode = true: no stage fails (ft = L); the consumer raises cx / closes the iterator (ccl) while handling chunk ck *)
+Variable cmode : bool.
+Variables (ck : nat) (ccl : bool) (cx : nat).
 Variable nt : net.
 Hypothesis HL : 1 <= L.
-Hypothesis Hft : ft < L.
+Hypothesis Hft : ft <= L.
 Hypothesis Hfp : fp <= N.
-Hypothesis Hfault : n_fault nt = Some (ft, fp, c).
-Hypothesis Hcf : n_cfault nt = None.
+Hypothesis Hfault : forall i k, i < L -> fault_at nt i k = if (ft =? i) && (fp =? k) then Some c else None.
+Hypothesis Hcf : n_cfault nt = if cmode then Some (ck, ccl, cx) else None.
+Hypothesis Hmode :
+  if cmode then ft = L /\ ck < N /\ c = (if ccl then (if relay then C_OUTSIDE else C_GENEXIT) else cx) /\ n_f1 nt = true
+  else ft < L.
 Hypothesis Hkill : n_kill nt <> [].
 
-Lemma fault_at_spec i k : fault_at nt i k = if (ft =? i) && (fp =? k) then Some c else None.
-Proof. unfold fault_at. rewrite Hfault. reflexivity. Qed.
+Lemma fault_at_spec i k : i < L -> fault_at nt i k = if (ft =? i) && (fp =? k) then Some c else None.
+Proof. apply Hfault. Qed.
 
 (* ---------- the static shape ---------- *)
 Definition stage_sig (i : nat) : tkind * list (nat * nat) :=
@@ -114,7 +120,7 @@ Definition head_no (t : thread) : nat := r_next (cur_r t) - length (r_buf (cur_r
 
 Definition Tok (i : nat) (t : thread) : Prop :=
   t_fi t = 0 /\ t_nstop t = 0 /\
-  (i = L -> t_pc t = PRead \/ t_pc t = PReadWait) /\
+  (i = L -> (t_pc t = PRead \/ t_pc t = PReadWait) /\ t_cnt t = r_next (cur_r t) /\ (cmode = true -> t_cnt t <= ck)) /\
   (i < L ->
      match t_pc t with
      | PGate _ | PGateWait _ | PSend _ _ _ | PSendWait _ _ _ | PDone | PDead _ => True
@@ -185,7 +191,7 @@ Proof.
     destruct (Nat.eq_dec k N) as [EkN | EkN].
     + (* the end marker *)
       rewrite EkN in Hbuf. rewrite msgs_S_stop in Hbuf. injection Hbuf as -> ->. cbn in *.
-      unfold stage_end. cbn. rewrite fault_at_spec.
+      unfold stage_end. cbn. rewrite fault_at_spec by lia.
       destruct ((ft =? S i) && (fp =? cnt)) eqn:Ef; cbn.
       * unfold Tok, Sok, head_no, cur_r; cbn.
         repeat split; intros; auto; try lia; try discriminate; try congruence.
@@ -200,7 +206,7 @@ Proof.
     + (* a data chunk *)
       assert (Hlt : k < N) by lia.
       rewrite (msgs_S_data N k (length rest) Hlt) in Hbuf. injection Hbuf as -> Hrest. cbn.
-      unfold stage_compute. cbn. rewrite fault_at_spec.
+      unfold stage_compute. cbn. rewrite fault_at_spec by lia.
       destruct ((ft =? S i) && (fp =? cnt)) eqn:Ef; cbn.
       * unfold Tok, Sok, head_no, cur_r; cbn.
         repeat split; intros; auto; try lia; try discriminate; try congruence.
@@ -230,14 +236,14 @@ Proof.
   destruct t as [kind pc0 wk rd fi nstop val cnt rows cl ex got]. cbn in *. subst kind rd fi nstop.
   unfold consume. cbn [t_kind t_rd]. unfold source_produce. cbn [t_cnt].
   destruct (cnt <? N) eqn:Ec.
-  - apply Nat.ltb_lt in Ec. unfold stage_compute. cbn. rewrite fault_at_spec.
+  - apply Nat.ltb_lt in Ec. unfold stage_compute. cbn. rewrite fault_at_spec by lia.
     destruct ((ft =? 0) && (fp =? cnt)) eqn:Ef; cbn.
     + unfold Tok, Sok; cbn. repeat split; intros; auto; try lia; try discriminate; try congruence.
     + apply andb_false_iff in Ef. unfold Tok, Sok; cbn.
       repeat split; intros; auto; try lia; try discriminate; try congruence.
       all: try (destruct Ef as [Ef | Ef]; apply Nat.eqb_neq in Ef; lia).
       all: try (destruct (H0 H1) as [E1 E2]; rewrite E1; try apply MS_data; auto).
-  - apply Nat.ltb_ge in Ec. unfold stage_end. cbn. rewrite fault_at_spec.
+  - apply Nat.ltb_ge in Ec. unfold stage_end. cbn. rewrite fault_at_spec by lia.
     destruct ((ft =? 0) && (fp =? cnt)) eqn:Ef; cbn.
     + unfold Tok, Sok; cbn. repeat split; intros; auto; try lia; try discriminate; try congruence.
     + apply andb_false_iff in Ef.
@@ -247,35 +253,73 @@ Proof.
       all: try (destruct (H0 H1) as [E1 E2]; rewrite E1; try (replace cnt with N by lia; apply MS_stop); auto).
 Qed.
 
-(* the caller taking data chunks *)
-Lemma main_loop ms : forall t,
-  t_kind t = KMain relay -> t_fi t < length (t_rd t) -> Forall (fun m => is_stop m = false) ms ->
-  let t' := sink_loop nt L t ms in
-  t_pc t' = PRead /\ t_fi t' = t_fi t /\ t_nstop t' = t_nstop t /\ cur_r t' = r_set_buf (cur_r t) [].
-Proof.
-  induction ms as [|m rest IH]; intros t Hk Hfi Hall; cbn [sink_loop].
-  - cbn. repeat split; auto. unfold cur_r, set_cur_r. cbn. apply nth_upd_eq. auto.
-  - inversion Hall as [|x y Hm Hrest]; subst.
-    set (tb := set_cur_r t (r_set_buf (cur_r t) rest)).
-    assert (Hcur : cur_r tb = r_set_buf (cur_r t) rest).
-    { unfold tb, cur_r, set_cur_r. cbn. apply nth_upd_eq. auto. }
-    assert (Hsd : forall v, sink_data nt L tb v = (add_row tb v, true)).
-    { intros v. unfold sink_data. replace (t_kind tb) with (KMain relay) by (symmetry; exact Hk).
-      unfold cfault_at. rewrite Hcf. reflexivity. }
-    assert (Hgo : forall v, let t' := sink_loop nt L (add_row tb v) rest in
-               t_pc t' = PRead /\ t_fi t' = t_fi t /\ t_nstop t' = t_nstop t /\ cur_r t' = r_set_buf (cur_r t) []).
-    { intros v. destruct (IH (add_row tb v)) as [H1 [H2 [H3 H4]]]; auto.
-      - cbn. rewrite upd_length. auto.
-      - cbn zeta. rewrite H1, H2, H3, H4. repeat split; auto.
-        change (cur_r (add_row tb v)) with (cur_r tb). rewrite Hcur. reflexivity. }
-    destruct m as [v | w v | ]; cbn in Hm; try discriminate; rewrite Hsd; apply Hgo.
-Qed.
+(* the caller taking data chunks numbered a .. a+len-1: it takes them all, or the consumer's failure fires *)
+Lemma cmode_cases : {cmode = true} + {cmode = false}.
+Proof. destruct cmode; auto. Qed.
 
-Lemma msgs_nonstop a len : a + len <= N -> Forall (fun m => is_stop m = false) (msgs N a len).
+Lemma main_loop len : forall a t,
+  t_kind t = KMain relay -> t_fi t < length (t_rd t) -> t_cnt t = a -> a + len <= S N ->
+  (cmode = false -> a + len <= N) -> (cmode = true -> a <= ck) ->
+  let t' := sink_loop nt L t (msgs N a len) in
+  (t_pc t' = PRead /\ t_cnt t' = a + len /\ (cmode = true -> a + len <= ck) /\
+   t_fi t' = t_fi t /\ t_nstop t' = t_nstop t /\ cur_r t' = r_set_buf (cur_r t) []) \/
+  (exists e, t_pc t' = PKillIn e /\ exn_code e = c /\ is_mk e = false) \/
+  t_pc t' = PKillAll 0 c.
 Proof.
-  revert a; induction len as [|l IH]; intros a H.
-  - rewrite msgs_0. constructor.
-  - rewrite msgs_S_data by lia. constructor; [reflexivity | apply IH; lia].
+  induction len as [|l IH]; intros a t Hk Hfi Hc Hb Hn Hm.
+  - rewrite msgs_0. cbn [sink_loop]. left. cbn. repeat split; auto; try lia.
+    all: try (intros E; specialize (Hm E); lia).
+    unfold cur_r, set_cur_r. cbn. apply nth_upd_eq. auto.
+  - pose proof Hcf as Hcf'. pose proof Hmode as Hmode'.
+    assert (HaN : a < N).
+    { destruct cmode_cases as [E|E]; rewrite E in Hmode'; [specialize (Hm E) | specialize (Hn E)]; lia. }
+    rewrite msgs_S_data by lia. cbn [sink_loop].
+    set (tb := set_cur_r t (r_set_buf (cur_r t) (msgs N (S a) l))).
+    assert (Hcur : cur_r tb = r_set_buf (cur_r t) (msgs N (S a) l)).
+    { unfold tb, cur_r, set_cur_r. cbn. apply nth_upd_eq. auto. }
+    assert (Hgo : sink_data nt L tb (Z.of_nat a) = (add_row tb (Z.of_nat a), true) ->
+                  let t' := (let '(t', go) := sink_data nt L tb (Z.of_nat a) in if go then sink_loop nt L t' (msgs N (S a) l) else t') in
+                  (cmode = true -> S a <= ck) ->
+                  (t_pc t' = PRead /\ t_cnt t' = a + S l /\ (cmode = true -> a + S l <= ck) /\
+                   t_fi t' = t_fi t /\ t_nstop t' = t_nstop t /\ cur_r t' = r_set_buf (cur_r t) []) \/
+                  (exists e, t_pc t' = PKillIn e /\ exn_code e = c /\ is_mk e = false) \/
+                  t_pc t' = PKillAll 0 c).
+    { intros Hsd. rewrite Hsd. cbv zeta. intros Hm'.
+      assert (A1 : t_kind (add_row tb (Z.of_nat a)) = KMain relay) by exact Hk.
+      assert (A2 : t_fi (add_row tb (Z.of_nat a)) < length (t_rd (add_row tb (Z.of_nat a)))).
+      { cbn. rewrite upd_length. auto. }
+      assert (A3 : t_cnt (add_row tb (Z.of_nat a)) = S a) by (cbn; rewrite Hc; reflexivity).
+      assert (A4 : S a + l <= S N) by lia.
+      assert (A5 : cmode = false -> S a + l <= N) by (intros E; specialize (Hn E); lia).
+      destruct (IH (S a) (add_row tb (Z.of_nat a)) A1 A2 A3 A4 A5 Hm') as [(H1 & H2 & H3 & H4 & H5 & H6) | H].
+      - left. rewrite H1, H2, H4, H5, H6.
+        change (cur_r (add_row tb (Z.of_nat a))) with (cur_r tb). rewrite Hcur.
+        split; [reflexivity|]. split; [lia|]. split; [intros E; specialize (H3 E); lia|].
+        split; [reflexivity|]. split; reflexivity.
+      - right. exact H. }
+    assert (Hsd0 : sink_data nt L tb (Z.of_nat a) =
+                   match cfault_at nt a with
+                   | Some (true, _) =>
+                       if relay then (set_pc tb (PKillIn (EOrig C_OUTSIDE)), false)
+                       else if n_f1 nt then (set_pc tb (enter_killall nt C_GENEXIT), false)
+                       else (set_pc tb (PFin (OErr (EOrig C_TYPEERR))), false)
+                   | Some (false, x) => (set_pc tb (PKillIn (EOrig x)), false)
+                   | None => (add_row tb (Z.of_nat a), true)
+                   end).
+    { unfold sink_data. replace (t_kind tb) with (KMain relay) by (symmetry; exact Hk).
+      replace (t_cnt tb) with a by (symmetry; exact Hc). reflexivity. }
+    unfold cfault_at in Hsd0. rewrite Hcf' in Hsd0.
+    destruct cmode_cases as [E|E]; rewrite E in Hsd0, Hmode'.
+    + destruct Hmode' as (_ & HckN & Hcode & Hf1). specialize (Hm E).
+      destruct (ck =? a) eqn:Eck.
+      * apply Nat.eqb_eq in Eck. rewrite Hsd0. right.
+        destruct ccl.
+        -- destruct relay.
+           ++ left. eexists. cbn. split; [reflexivity|]. split; [symmetry; exact Hcode | reflexivity].
+           ++ rewrite Hf1. right. cbn. unfold enter_killall. destruct (n_kill nt); [contradiction|]. rewrite Hcode. reflexivity.
+        -- left. eexists. cbn. split; [reflexivity|]. split; [symmetry; exact Hcode | reflexivity].
+      * apply Nat.eqb_neq in Eck. apply (Hgo Hsd0). intros _. lia.
+    + apply (Hgo Hsd0). intros E'. congruence.
 Qed.
 
 (* ---------- state access after a region ---------- *)
@@ -437,9 +481,9 @@ Lemma sim_Tok i t t' : sim t t' -> Tok i t -> Tok i t'.
 Proof.
   intros H. sim_tac t t' H; auto.
   - unfold Tok, head_no, cur_r. cbn. intros (H1 & H2 & H3 & H4).
-    repeat split; auto; try (intros E; destruct (H3 E); discriminate); try (apply H4; auto).
+    repeat split; auto; try (intros E; destruct (H3 E) as [[X|X] _]; discriminate); try (match goal with HH : _ = L |- _ => destruct (H3 HH) as [[X|X] _]; discriminate end); try (apply H4; auto).
   - destruct x; unfold Tok, head_no, cur_r; cbn; intros (H1 & H2 & H3 & H4);
-      repeat split; auto; try (intros E; destruct (H3 E); discriminate); try (apply H4; auto).
+      repeat split; auto; try (intros E; destruct (H3 E) as [[X|X] _]; discriminate); try (match goal with HH : _ = L |- _ => destruct (H3 HH) as [[X|X] _]; discriminate end); try (apply H4; auto).
 Qed.
 
 (* a thread that only changes as in sim *)
@@ -774,7 +818,9 @@ Qed.
 Lemma Tok_rw i t b : t_pc t = PRead -> Tok i t -> Tok i (set_woken (set_pc t PReadWait) b).
 Proof.
   unfold Tok, head_no, cur_r. cbn. intros E (H1 & H2 & H3 & H4). rewrite E in *.
-  repeat split; auto; apply H4; auto.
+  split; auto. split; auto. split.
+  - intros Ei. destruct (H3 Ei) as (_ & A & B). auto.
+  - intros Ei. destruct (H4 Ei) as (A & B & C & D). auto.
 Qed.
 
 Lemma Rok_intro m m' t t' :
@@ -784,11 +830,16 @@ Lemma Rok_intro m m' t t' :
   Rok m' t'.
 Proof. unfold Rok, rcore. intros (A & B & C & D & E) Hc Hn Hw Hr. rewrite Hc, Hn. auto 10. Qed.
 
+(* the consumer's failure has fired: the caller is about to kill its input and enter kill-all *)
+Definition firing (st : nstate) : Prop :=
+  shape st /\ exists e, t_pc (get_th st L) = PKillIn e /\ exn_code e = c /\ is_mk e = false.
+
 Lemma read_case st p (resume : bool) :
   Inv st -> p < L ->
   t_pc (get_th st (S p)) = (if resume then PReadWait else PRead) ->
   shape (read_region nt (S p) resume st (get_th st (S p))) ->
   Inv (read_region nt (S p) resume st (get_th st (S p))) \/
+  firing (read_region nt (S p) resume st (get_th st (S p))) \/
   noticed L (read_region nt (S p) resume st (get_th st (S p))) c.
 Proof.
   intros HI Hp Hpc. set (tid := S p) in *. set (t := get_th st tid) in *.
@@ -824,7 +875,7 @@ Proof.
     set (m1 := set_sub m 0 x) in *.
     destruct (Nat.eq_dec tid L) as [EL | NL].
     + (* the caller notices *)
-      intros _ _. right. unfold noticed. rewrite <- EL. rewrite get_th_set_th_eq by (lens; auto).
+      intros _ _. right. right. unfold noticed. rewrite <- EL. rewrite get_th_set_th_eq by (lens; auto).
       unfold on_input_killed. rewrite Hkind, (Hk2 EL). unfold enter_killall.
       destruct (n_kill nt) eqn:En; [contradiction|]. cbn. apply (mo_reason _ _ HM). auto.
     + (* a stage passes the MailboxKilled on *)
@@ -863,27 +914,41 @@ Proof.
       assert (Hl3 : tid < length (ths st3)) by (unfold st3; lens; auto).
       assert (Ht3 : forall t', get_th (set_th st3 tid t') tid = t') by (intros; apply get_th_set_th_eq; auto).
       assert (HS2 : Sok m3 (get_th st p)) by (eapply Sok_fields; [| | | exact HSp]; auto).
-      assert (Hnp : mb_nsent m <= N -> Forall (fun x => is_stop x = false) ms).
-      { intros Hle. unfold ms. apply msgs_nonstop. lia. }
       destruct (Nat.eq_dec tid L) as [EL | NL].
       * (* the caller takes the chunks *)
-        intros Hfr Hsh'. left.
-        assert (Hle : mb_nsent m <= N) by (apply (mo_ft _ _ HM); unfold tid in EL; lia).
+        intros Hfr Hsh'.
+        assert (Ht3L : forall t', get_th (set_th st3 tid t') L = t') by (intros; rewrite <- EL; apply Ht3).
         assert (Hco : consume nt tid t1 = sink_loop nt L t1 ms).
         { unfold consume. change (t_kind t1) with (t_kind t). rewrite Hkind, (Hk2 EL), Hc1, EL. reflexivity. }
         rewrite Hco in *.
-        destruct (main_loop ms t1) as (Q1 & Q2 & Q3 & Q4); auto.
-        { change (t_kind t1) with (t_kind t). rewrite Hkind. auto. }
+        destruct HT as (_ & _ & HT3 & _). destruct (HT3 EL) as (_ & Hcm & Hck).
+        pose proof (mo_bound _ _ HM) as Hbd.
+        assert (B1 : t_kind t1 = KMain relay) by (change (t_kind t1) with (t_kind t); rewrite Hkind; auto).
+        assert (B2 : t_fi t1 < length (t_rd t1)).
         { unfold t1, set_cur_r. cbn. rewrite upd_length, Hrd, Hfi. cbn. lia. }
-        set (t' := sink_loop nt L t1 ms) in *.
-        apply (Inv_frame st _ tid p HI Hsh' Hfr); try lia.
-        -- intros _. rewrite Hg3. exact HM3.
-        -- intros _ _. rewrite Hg3. exact HS2.
-        -- intros q Hq. assert (q = p) by (unfold tid in Hq; lia). subst q. rewrite Hg3, Ht3.
-           unfold Rok, rcore. rewrite Q1, Q4, Hc1, Hs3. cbn. rewrite msgs_0.
-           repeat split; auto; try lia.
-        -- rewrite Ht3. unfold Tok. rewrite Q1, Q2, Q3. change (t_fi t1) with (t_fi t). change (t_nstop t1) with (t_nstop t).
-           repeat split; auto; try lia.
+        assert (B3 : t_cnt t1 = sb_nread (sub0 m)) by (change (t_cnt t1) with (t_cnt t); rewrite Hcm, Hn; reflexivity).
+        assert (B4 : sb_nread (sub0 m) + (mb_nsent m - sb_nread (sub0 m)) <= S N) by lia.
+        assert (B5 : cmode = false -> sb_nread (sub0 m) + (mb_nsent m - sb_nread (sub0 m)) <= N).
+        { intros E. pose proof Hmode as Hm'. rewrite E in Hm'.
+          assert (mb_nsent m <= N) by (apply (mo_ft _ _ HM); unfold tid in EL; lia). lia. }
+        assert (B6 : cmode = true -> sb_nread (sub0 m) <= ck).
+        { intros E. specialize (Hck E). rewrite Hcm, Hn in Hck. exact Hck. }
+        destruct (main_loop (mb_nsent m - sb_nread (sub0 m)) (sb_nread (sub0 m)) t1 B1 B2 B3 B4 B5 B6)
+          as [(Q1 & Qc & Qk & Q2 & Q3 & Q4) | [Hfire | Hnot]].
+        -- fold ms in Q1, Qc, Qk, Q2, Q3, Q4. left. set (t' := sink_loop nt L t1 ms) in *.
+           apply (Inv_frame st _ tid p HI Hsh' Hfr); try lia.
+           ++ intros _. rewrite Hg3. exact HM3.
+           ++ intros _ _. rewrite Hg3. exact HS2.
+           ++ intros q Hq. assert (q = p) by (unfold tid in Hq; lia). subst q. rewrite Hg3, Ht3.
+              unfold Rok, rcore. rewrite Q1, Q4, Hc1, Hs3. cbn. rewrite msgs_0.
+              assert (mb_nsent m <= N).
+              { destruct cmode_cases as [E|E]; [specialize (Qk E); pose proof Hmode as Hm'; rewrite E in Hm' | specialize (B5 E)]; lia. }
+              repeat split; auto; try lia; try (symmetry; apply Nat.eqb_neq; lia).
+           ++ rewrite Ht3. unfold Tok. rewrite Q1, Q2, Q3, Q4, Qc, Hc1.
+              change (t_fi t1) with (t_fi t). change (t_nstop t1) with (t_nstop t). cbn [r_next r_set_buf].
+              repeat split; auto; try lia; try (intros E; specialize (Qk E); lia).
+        -- fold ms in Hfire. right. left. split; [exact Hsh'|]. rewrite Ht3L. exact Hfire.
+        -- fold ms in Hnot. right. right. unfold noticed. rewrite Ht3L, Hnot. reflexivity.
       * (* a stage goes on with its loop *)
         assert (HtL : tid < L) by lia. intros Hfr Hsh'. left.
         destruct (Hmb tid HtL) as [HMt [HSt _]]. fold t in HSt.
@@ -953,11 +1018,15 @@ Qed.
 Lemma Tok_not_join i t : i <= L -> Tok i t -> forall k exc, t_pc t <> PJoin k exc.
 Proof.
   intros Hi (_ & _ & H3 & H4) k exc E. destruct (Nat.eq_dec i L) as [->|Hne].
-  - destruct (H3 eq_refl); congruence.
+  - destruct (H3 eq_refl) as [[X|X] _]; congruence.
   - destruct H4 as [H4 _]; [lia|]. rewrite E in H4. exact H4.
 Qed.
 
-Lemma Inv_step st tid st' : Inv st -> nstep nt st tid = Some st' -> Inv st' \/ noticed L st' c.
+Lemma enter_killall_c : enter_killall nt c = PKillAll 0 c.
+Proof. unfold enter_killall. destruct (n_kill nt); [contradiction | reflexivity]. Qed.
+
+Lemma Inv_step st tid st' :
+  Inv st -> nstep nt st tid = Some st' -> Inv st' \/ firing st' \/ noticed L st' c.
 Proof.
   intros HI Hstep. pose proof HI as [Hsh [Hmb Hth]].
   unfold nstep in Hstep. destruct (nth_error (ths st) tid) as [t|] eqn:Et; [|discriminate].
@@ -967,11 +1036,14 @@ Proof.
   pose proof (get_th_nth _ _ _ Et) as Hg. subst t.
   assert (HshX : shape (thread_step nt tid st (get_th st tid))).
   { apply (shape_sig st); [apply (sig_thread_step nt tid st _ Et) | auto]. }
+  assert (HlX : length (ths (thread_step nt tid st (get_th st tid))) = S L).
+  { destruct (sig_lengths _ _ (sig_thread_step nt tid st _ Et)) as [_ Hl]. rewrite Hl, (sh_nt _ Hsh). reflexivity. }
   pose proof (Hth tid Htid) as HT.
-  assert (HX : Inv (thread_step nt tid st (get_th st tid)) \/ noticed L (thread_step nt tid st (get_th st tid)) c).
+  assert (HX : Inv (thread_step nt tid st (get_th st tid)) \/ firing (thread_step nt tid st (get_th st tid)) \/
+               noticed L (thread_step nt tid st (get_th st tid)) c).
   { destruct HT as (_ & _ & HT3 & HT4).
     assert (Hstage : t_pc (get_th st tid) <> PRead -> t_pc (get_th st tid) <> PReadWait -> tid < L).
-    { intros H1 H2. destruct (Nat.eq_dec tid L) as [E|E]; [|lia]. destruct (HT3 E); contradiction. }
+    { intros H1 H2. destruct (Nat.eq_dec tid L) as [E|E]; [|lia]. destruct (HT3 E) as [[X|X] _]; contradiction. }
     assert (Hrd : t_pc (get_th st tid) = PRead \/ t_pc (get_th st tid) = PReadWait -> exists p, tid = S p /\ p < L).
     { intros H. destruct tid as [|p]; [|exists p; split; auto; lia].
       exfalso. destruct HT4 as [H4 _]; [lia|]. destruct H as [H|H]; rewrite H in H4; lia. }
@@ -987,23 +1059,63 @@ Proof.
     - exfalso. destruct HT4 as [H4 _]; [apply Hstage; discriminate | exact H4].
     - exfalso. destruct HT4 as [H4 _]; [apply Hstage; discriminate | exact H4].
     - exfalso. destruct HT4 as [H4 _]; [apply Hstage; discriminate | exact H4]. }
-  destruct HX as [HIX | HnX].
+  destruct HX as [HIX | [HfX | HnX]].
   - left. rewrite settle_other; auto.
     intros k exc. apply (Tok_not_join tid); auto. destruct HIX as [_ [_ H]]. apply H. auto.
-  - right. apply noticed_settle; auto.
-    destruct (sig_lengths _ _ (sig_thread_step nt tid st _ Et)) as [_ Hl]. rewrite Hl, (sh_nt _ Hsh). lia.
+  - destruct HfX as [_ [e [E1 [E2 E3]]]].
+    destruct (Nat.eq_dec tid L) as [->|Hne].
+    + right. left. rewrite settle_other by (intros k exc; rewrite E1; discriminate).
+      split; auto. exists e. auto.
+    + right. left. split; [apply (shape_sig (thread_step nt tid st (get_th st tid))); [apply sig_settle | auto]|].
+      exists e. rewrite (pe_get_th tid _ _ L (pe_settle nt tid _)) by auto. auto.
+  - right. right. apply noticed_settle; auto. rewrite HlX. lia.
+Qed.
+
+(* from the firing state: the caller's next step kills its input and enters kill-all with c *)
+Lemma firing_step st tid st' : firing st -> nstep nt st tid = Some st' -> firing st' \/ noticed L st' c.
+Proof.
+  intros [Hsh [e [E1 [E2 E3]]]] Hstep.
+  assert (Hsh' : shape st') by (apply (shape_sig st); [apply (sig_step _ _ _ _ Hstep) | auto]).
+  destruct (Nat.eq_dec tid L) as [->|Hne].
+  - right. unfold nstep in Hstep. destruct (nth_error (ths st) L) as [t|] eqn:Et; [|discriminate].
+    destruct (t_enabled nt st t); [|discriminate]. inversion Hstep; subst st'. clear Hstep.
+    pose proof (get_th_nth _ _ _ Et) as Hg. subst t.
+    assert (Hlt : L < length (ths st)) by (rewrite (sh_nt _ Hsh); lia).
+    assert (Hk : t_kind (get_th st L) = KMain relay).
+    { pose proof (sh_main _ Hsh) as Hs. unfold tsig in Hs. congruence. }
+    unfold thread_step. rewrite E1. unfold killin_region. rewrite E3. cbn [andb]. rewrite Hk, E2, enter_killall_c.
+    rewrite settle_other.
+    + unfold noticed. rewrite get_th_set_th_eq by (rewrite len_kill_mb; auto). reflexivity.
+    + intros k exc. rewrite get_th_set_th_eq by (rewrite len_kill_mb; auto). discriminate.
+  - left. split; auto. exists e. pose proof (pe_step _ _ _ _ Hstep) as Hpe.
+    rewrite (pe_get_th tid st st' L Hpe) by auto. auto.
+Qed.
+
+Lemma firing_run sched : forall st st', firing st -> nrun nt st sched = Some st' ->
+  firing st' \/ exists s1 s2 st1, sched = s1 ++ s2 /\ nrun nt st s1 = Some st1 /\ noticed L st1 c /\ nrun nt st1 s2 = Some st'.
+Proof.
+  induction sched as [|t rest IH]; intros st st' HF Hr; cbn in Hr.
+  - inversion Hr; subst. auto.
+  - destruct (nstep nt st t) as [sa|] eqn:E; [|discriminate].
+    destruct (firing_step _ _ _ HF E) as [HFa | Hn].
+    + destruct (IH _ _ HFa Hr) as [H | (s1 & s2 & st1 & -> & H1 & H2 & H3)]; auto.
+      right. exists (t :: s1), s2, st1. cbn. rewrite E. auto.
+    + right. exists [t], rest, sa. cbn. rewrite E. auto.
 Qed.
 
 Lemma Inv_run sched : forall st st', Inv st -> nrun nt st sched = Some st' ->
-  Inv st' \/ exists s1 s2 st1, sched = s1 ++ s2 /\ nrun nt st s1 = Some st1 /\ noticed L st1 c /\ nrun nt st1 s2 = Some st'.
+  Inv st' \/ firing st' \/
+  exists s1 s2 st1, sched = s1 ++ s2 /\ nrun nt st s1 = Some st1 /\ noticed L st1 c /\ nrun nt st1 s2 = Some st'.
 Proof.
   induction sched as [|t rest IH]; intros st st' HI Hr; cbn in Hr.
   - inversion Hr; subst. auto.
   - destruct (nstep nt st t) as [sa|] eqn:E; [|discriminate].
-    destruct (Inv_step _ _ _ HI E) as [HIa | Hn].
-    + destruct (IH _ _ HIa Hr) as [H | (s1 & s2 & st1 & -> & H1 & H2 & H3)]; auto.
-      right. exists (t :: s1), s2, st1. cbn. rewrite E. auto.
-    + right. exists [t], rest, sa. cbn. rewrite E. auto.
+    destruct (Inv_step _ _ _ HI E) as [HIa | [HFa | Hn]].
+    + destruct (IH _ _ HIa Hr) as [H | [H | (s1 & s2 & st1 & -> & H1 & H2 & H3)]]; auto.
+      right. right. exists (t :: s1), s2, st1. cbn. rewrite E. auto.
+    + destruct (firing_run rest _ _ HFa Hr) as [H | (s1 & s2 & st1 & -> & H1 & H2 & H3)]; auto.
+      right. right. exists (t :: s1), s2, st1. cbn. rewrite E. auto.
+    + right. right. exists [t], rest, sa. cbn. rewrite E. auto.
 Qed.
 
 (* ---------- no deadlock before the caller has noticed ---------- *)
@@ -1100,7 +1212,7 @@ Proof.
   pose proof HI as [Hsh [Hmb Hth]].
   destruct (Hth L (le_n _)) as (_ & _ & H3 & _).
   pose proof (q_disabled L (le_n _)) as Hen. unfold t_enabled in Hen.
-  destruct (H3 eq_refl) as [E|E]; rewrite E in Hen; [discriminate|].
+  destruct (H3 eq_refl) as [[E|E] _]; rewrite E in Hen; [discriminate|].
   apply (reader_never_stuck (L - 1)); [lia|]. replace (S (L - 1)) with L by lia. exact E.
 Qed.
 End Quiet.
@@ -1142,9 +1254,10 @@ Proof.
     destruct i as [|p]; cbn; rewrite ?msgs_0; repeat split; auto; try lia. }
   assert (Hmn : t_pc (get_th (start_all nt st0) L) = PRead /\ t_fi (get_th (start_all nt st0) L) = 0 /\
                 t_nstop (get_th (start_all nt st0) L) = 0 /\
-                cur_r (get_th (start_all nt st0) L) = mkR (L - 1) 0 0 false []).
+                cur_r (get_th (start_all nt st0) L) = mkR (L - 1) 0 0 false [] /\
+                t_cnt (get_th (start_all nt st0) L) = 0).
   { rewrite Hth by (unfold st0; cbn [ths]; lia). unfold get_th, st0. cbn [ths]. rewrite Hmain. cbn. auto. }
-  destruct Hmn as (Q1 & Q2 & Q3 & Q4).
+  destruct Hmn as (Q1 & Q2 & Q3 & Q4 & Q5).
   split; [auto|]. split.
   - intros j Hj. rewrite Hgm. destruct (Hbox j Hj) as [cap [E Hc]].
     assert (Em : get_mb st0 j = mk_mbox cap lz [true]) by (unfold get_mb, st0; cbn [mbs]; auto).
@@ -1155,7 +1268,7 @@ Proof.
       * destruct (Hstage (S j)) as [_ [PR _]]; [lia|]. apply PR; [lia | | reflexivity].
         rewrite Hg0 by lia. reflexivity.
   - intros i Hi. destruct (Nat.eq_dec i L) as [->|E].
-    + unfold Tok. rewrite Q1, Q2, Q3. repeat split; auto; lia.
+    + unfold Tok. rewrite Q1, Q2, Q3, Q4, Q5. cbn. repeat split; auto; lia.
     + destruct (Hstage i) as [PT _]; [lia|]. exact PT.
 Qed.
 
@@ -1176,9 +1289,11 @@ Proof.
   assert (Hbx : forall m, In m boxes -> mb_box m = []).
   { intros m Hin. destruct (In_nth _ _ dflt_mb Hin) as [j [Hj E]]. rewrite Hlb in Hj.
     destruct (Hbox j Hj) as [cap [E2 _]]. rewrite E2 in E. subst m. reflexivity. }
-  destruct (Inv_run sched _ _ Inv_init Hr) as [HIst | (s1 & s2 & st1 & -> & H1 & H2 & H3)].
+  destruct (Inv_run sched _ _ Inv_init Hr) as [HIst | [HFst | (s1 & s2 & st1 & -> & H1 & H2 & H3)]].
   - exfalso. apply (no_deadlock st HIst); auto.
     apply (Wn_reachable nt boxes threads sched st); auto. intros t Hin. apply (Hthr t Hin).
+  - exfalso. destruct HFst as [Hsh [e [E1 _]]]. specialize (Hq L). unfold nenabled in Hq.
+    rewrite nth_get in Hq by (rewrite (sh_nt _ Hsh); lia). unfold t_enabled in Hq. rewrite E1 in Hq. discriminate.
   - exact (shutdown_theorem nt L boxes threads Hcov Hthr Hbx s1 st1 c H1 H2 s2 st H3 Hq).
 Qed.
 End Init.
@@ -1242,17 +1357,21 @@ Proof.
   destruct (S j <? length (ch_caps sp)); reflexivity.
 Qed.
 
-Theorem chain_nosav_failure_reaches_caller ft fp c :
-  ft < L -> fp <= ch_N sp ->
-  failure_reaches_caller (chain_net sp true (Some (ft, fp, c)) None) (chain_init sp true (Some (ft, fp, c)) None)
-                         (chain_main sp) (ch_N sp) c.
+Lemma ns_core fault cfault ft fp c (cmode : bool) ck (ccl : bool) cx :
+  ft <= L -> fp <= ch_N sp ->
+  (forall i k, i < L -> fault_at (chain_net sp true fault cfault) i k = if (ft =? i) && (fp =? k) then Some c else None) ->
+  cfault = (if cmode then Some (ck, ccl, cx) else None) ->
+  (if cmode then ft = L /\ ck < ch_N sp /\
+                 c = (if ccl then (if ch_relay sp then C_OUTSIDE else C_GENEXIT) else cx) /\ true = true
+   else ft < L) ->
+  failure_reaches_caller (chain_net sp true fault cfault) (chain_init sp true fault cfault) (chain_main sp) (ch_N sp) c.
 Proof.
-  intros Hft Hfp sched st Hr Hq.
+  intros Hft Hfp Hfault Hcfault Hmode sched st Hr Hq.
   assert (Hmain : chain_main sp = L).
   { unfold chain_main. rewrite Hns. fold L. rewrite sum_first_zero. lia. }
   rewrite Hmain.
   destruct Hv as [HL [Hlen Hcaps]]. fold L in HL.
-  set (nt := chain_net sp true (Some (ft, fp, c)) None) in *.
+  set (nt := chain_net sp true fault cfault) in *.
   assert (Hlb : length (chain_boxes sp) = L) by (unfold chain_boxes; rewrite map_length, seq_length; reflexivity).
   assert (Hkillne : n_kill nt <> []).
   { cbn. intros E. assert (H0 : length (seq 0 (length (ch_caps sp))) = 0) by (rewrite E; reflexivity).
@@ -1276,8 +1395,8 @@ Proof.
       destruct (ns_nth_error i t Hi) as [[Hlt ->] | [-> ->]].
       + destruct i as [|p]; cbn in Hin; [contradiction|]. destruct Hin as [<-|[]]. cbn. lia.
       + cbn in Hin. destruct Hin as [<-|[]]. cbn. lia. }
-  destruct (chain_core L (ch_N sp) (ch_lazy sp) (ch_relay sp) ft fp c nt HL Hft Hfp eq_refl eq_refl Hkillne
-              (chain_boxes sp) (chain_threads sp) Hlb ns_len Hbox
+  destruct (chain_core L (ch_N sp) (ch_lazy sp) (ch_relay sp) ft fp c cmode ck ccl cx nt HL Hft Hfp Hfault Hcfault Hmode
+              Hkillne (chain_boxes sp) (chain_threads sp) Hlb ns_len Hbox
               (fun i Hi => ns_stage i Hi) ns_main Hcov sched st Hr Hq) as [Hat Hout].
   split; [auto|]. split; [auto|].
   (* there are no savers *)
@@ -1287,5 +1406,37 @@ Proof.
   destruct (sig_thread _ _ _ _ Hsig Hi) as [t0 [Ht0 Es]]. cbn [ths] in Ht0.
   unfold is_saver in Hsv. replace (t_kind t) with (t_kind t0) in Hsv by (unfold tsig in Es; congruence).
   destruct (ns_nth_error i t0 Ht0) as [[_ ->] | [_ ->]]; cbn in Hsv; discriminate.
+Qed.
+
+(* a plugin stage fails *)
+Theorem chain_nosav_failure_reaches_caller ft fp c :
+  ft < L -> fp <= ch_N sp ->
+  failure_reaches_caller (chain_net sp true (Some (ft, fp, c)) None) (chain_init sp true (Some (ft, fp, c)) None)
+                         (chain_main sp) (ch_N sp) c.
+Proof.
+  intros Hft Hfp. apply (ns_core (Some (ft, fp, c)) None ft fp c false 0 false 0); auto; try lia.
+Qed.
+
+(* the consumer raises cx while handling chunk k *)
+Theorem chain_nosav_consumer_exception k cx :
+  k < ch_N sp ->
+  failure_reaches_caller (chain_net sp true None (Some (k, false, cx))) (chain_init sp true None (Some (k, false, cx)))
+                         (chain_main sp) (ch_N sp) cx.
+Proof.
+  intros Hk. apply (ns_core None (Some (k, false, cx)) L 0 cx true k false cx); auto; try lia.
+  intros i j Hi. unfold fault_at. cbn [n_fault chain_net].
+  assert (E : (L =? i) = false) by (apply Nat.eqb_neq; lia). rewrite E. reflexivity.
+Qed.
+
+(* the consumer closes the iterator while handling chunk k *)
+Theorem chain_nosav_consumer_close k cx :
+  k < ch_N sp ->
+  failure_reaches_caller (chain_net sp true None (Some (k, true, cx))) (chain_init sp true None (Some (k, true, cx)))
+                         (chain_main sp) (ch_N sp) (if ch_relay sp then C_OUTSIDE else C_GENEXIT).
+Proof.
+  intros Hk.
+  apply (ns_core None (Some (k, true, cx)) L 0 (if ch_relay sp then C_OUTSIDE else C_GENEXIT) true k true cx); auto; try lia.
+  intros i j Hi. unfold fault_at. cbn [n_fault chain_net].
+  assert (E : (L =? i) = false) by (apply Nat.eqb_neq; lia). rewrite E. reflexivity.
 Qed.
 End NoSavers.
